@@ -305,6 +305,50 @@ def r3_max(prog, res):
                     "assigned`: an instance that got it is given a second id and a second node when it is appended again" % (lb, lb_ret))
 
 
+def r3_clear_resets_max(prog, res, rule="R3.cleared_manager_is_recognised_empty"):
+    """STEPfile decides whether ids of the next file need an offset by asking `instances().MaxFileId() < K` (empty manager => no
+    offset).  Every InstMgr method that empties the master array must therefore leave maxFileId below K - otherwise a file read
+    into a manager that was just cleared (ReadWorkingFile / ReadExchangeFile re-opened in one session) gets every id shifted."""
+    g = prog.one("STEPfile::SetFileIdIncrement")
+    if g is None:
+        res.broke("anchor vanished: STEPfile::SetFileIdIncrement")
+        return
+    K = None
+    for x in g.walk():
+        if x["k"] == "If":
+            c = strip(x["ch"][0])
+            if c is not None and c["k"] == "Binary" and c.get("op") in ("<", "<=") and "MaxFileId" in expr_str(c["ch"][0]) and isinstance((strip(c["ch"][1]) or {}).get("val"), int):
+                K = strip(c["ch"][1])["val"] + (1 if c["op"] == "<=" else 0)
+    if K is None:
+        res.broke("%s: the emptiness test `MaxFileId() < K` of STEPfile::SetFileIdIncrement was not found" % rule)
+        return
+    n = 0
+    for f in prog.all_functions():
+        if not f.name.startswith("InstMgr::") or f.cfg is None or f.name.split("::")[-1].startswith("~"):
+            continue          # (after the destructor nobody can ask the manager anything)
+        clears = [m for m in mutations(f) if m[1] == "master" and m[2] == "clear"]
+        if not clears:
+            continue
+        n += 1
+        resets = [x for x in f.walk() if x["k"] == "Assign" and strip(x["ch"][0]) is not None and strip(x["ch"][0]).get("q") == "InstMgr::maxFileId"]
+        vals = []
+        for x in resets:
+            r = strip(x["ch"][1])
+            v = r.get("val") if r is not None else None
+            if v is None and r is not None and r["k"] == "Unary" and r.get("op") == "-":
+                v0 = (strip(r["ch"][0]) or {}).get("val")
+                v = -v0 if isinstance(v0, int) else None
+            vals.append(v)
+        ok = bool(resets) and all(isinstance(v, int) and v < K for v in vals) and \
+            all(any(f.cfg.postdominates(f.cfg.locate(x), f.cfg.locate(c[0])) or f.cfg.dominates(f.cfg.locate(x), f.cfg.locate(c[0])) for x in resets) for c in clears)
+        res.add(rule, "%s|%s|%s|maxFileId" % (rule.split(".")[0], f.relfile(), f.name), f.where(clears[0][0]), ok,
+                "%s empties the manager and sets maxFileId to %s (< %d), which STEPfile::SetFileIdIncrement reads as `empty`" % (f.name, vals, K) if ok else
+                "%s empties the manager but leaves maxFileId as it was: STEPfile::SetFileIdIncrement (`MaxFileId() < %d`) takes the cleared manager "
+                "for a filled one and shifts every id of the file read next (a working-session file re-opened in the same session comes back as "
+                "#2001, #2002, ...)" % (f.name, K))
+    res.floor(rule, "InstMgr methods that empty the master array", n, 2)
+
+
 GETTERS = ("SDAI_Application_instance::StepFileId", "SDAI_Application_instance::GetFileId", "MgrNode::GetFileId")
 
 
@@ -499,6 +543,28 @@ def r5_delete(prog, res):
     ok = src is not None and src["k"] == "Call" and (src.get("fn") or "") == "MgrNode::ArrayIndex" and strip(src["ch"][0]).get("d") == p
     res.add("R5.removes_own_slot", "R5|src/clstepcore/instmgr.cc|InstMgr::Delete(MgrNode*)|slot", f.where(rm[0][0]), ok,
             "the array slot removed is the node's own cached index" if ok else "the array slot removed (%s) is not the cached index of the node being deleted" % expr_str(idx))
+    # the id (and the slot) are read through the node: nothing the getters read may have been overwritten on the node before
+    def getter_reads(call):
+        out = set()
+        for g in prog.all_functions():
+            if g.key == call.get("fk"):
+                for y in g.walk():
+                    if y["k"] == "Member" and y.get("q") and y.get("ch") and strip(y["ch"][0]) is not None and strip(y["ch"][0])["k"] == "This":
+                        out.add(y["q"])
+        return out
+    for what, node_ in (("id", key), ("slot", src)):
+        if node_ is None or node_["k"] != "Call":
+            continue
+        reads = getter_reads(node_)
+        user = er[0][0] if what == "id" else rm[0][0]
+        clobber = [x for x in f.walk() if x["k"] == "Assign" and strip(x["ch"][0]) is not None and strip(x["ch"][0])["k"] == "Member" and
+                   strip(x["ch"][0]).get("q") in reads and strip(strip(x["ch"][0])["ch"][0]) is not None and strip(strip(x["ch"][0])["ch"][0]).get("d") == p and
+                   cfg.reaches(cfg.locate(x), cfg.locate(node_))]
+        ok = not clobber
+        res.add("R5.read_before_detach", "R5|src/clstepcore/instmgr.cc|InstMgr::Delete(MgrNode*)|%s-read-intact" % what, f.where(clobber[0]) if clobber else f.where(user), ok,
+                "the node's %s is read (%s reads %s) before anything on the node is overwritten" % (what, node_.get("fn"), sorted(q_.split("::")[-1] for q_ in reads)) if ok else
+                "`%s` is assigned before %s() reads it to find the %s to remove: the getter then answers for a node without instance (-1), the real "
+                "entry stays in the container and points at the node that is about to be freed" % (expr_str(strip(clobber[0]["ch"][0])), node_.get("fn"), what))
     dpos = cfg.locate(dels[0])
     uses_after = [x for x in f.walk() if x["k"] == "Ref" and x.get("d") == p and x is not strip(dels[0]["ch"][0]) and cfg.reaches(dpos, cfg.locate(x))]
     ok = not uses_after and cfg.dominates(cfg.locate(er[0][0]), dpos) and cfg.dominates(cfg.locate(rm[0][0]), dpos)
